@@ -607,13 +607,19 @@ let gen_vrand seed count lo hi =
   seed_rng seed;
   for h = 1 to count do
     let g = { nextv = 100 } in
-    let owned = chance 30 in
+    (* the first histories of every run cover the constructor x item-kind combinations; the rest is random *)
+    let forced = match h with 1 -> Some (true, "fromcap") | 2 -> Some (true, "from") | 3 -> Some (false, "fromcap") | 4 -> Some (true, "zeroed")
+                            | 5 -> Some (false, "default") | 6 -> Some (false, "from") | _ -> None in
+    let owned = (match forced with Some (o, _) -> let _ = chance 30 in o | None -> chance 30) in
     let pages = pick [1; 1; 2; 3] in
     let len = 4096 * pages in
     let kind = pick ["conc"; "local"] and st = pick [2; 3; 3] in
     let item = if owned then pick ["owned"; "owned24"; "owned4"] else "plain" in
-    let ctor = if owned then "zeroed" else pick ["zeroed"; "default"; "from"] in
-    let init = if ctor = "from" then List.init len (fun i -> 1 + (i mod 250)) else List.init len (fun _ -> 0) in
+    (* owned items: also buffers built from a Vec of live items, with exact and with spare capacity (the vmem constructor copies the
+       items into the mapping and must hand each of them over exactly once) *)
+    let ctor = if owned then pick ["zeroed"; "zeroed"; "from"; "fromcap"] else pick ["zeroed"; "default"; "from"; "fromcap"] in
+    let ctor = (match forced with Some (_, c) -> c | None -> ctor) in
+    let init = if ctor = "from" || ctor = "fromcap" then (if owned then fresh_vals g len else List.init len (fun i -> 1 + (i mod 250))) else List.init len (fun _ -> 0) in
     Printf.printf "# vrand seed=%d n=%d\ncfg kind=%s store=heap stages=%d item=%s ctor=%s vmem=1 init=%s\n" seed h kind st item ctor (csv init);
     let cfg = { c_init = List.map n_of_int init; c_worker = (st = 3); c_heap = true; c_owned = owned } in
     match init_state_of cfg with
